@@ -38,6 +38,27 @@ def special(arg):
                 rec('fit#post.values_orders_well_formed', not errs, '%s: %s (order %r)' % (name, '; '.join(errs), dict(o.values_orders['o'].content)), w)
                 t = outcome(lambda: o.transform(X))
                 rec('transform#post.training_rows_accepted', t[0] == 'ok', '%s: transform of the training data: %s' % (name, t[0]), w)
+    elif which == 'pregrouped_default':
+        # a categorical feature handed over with a PRE-GROUPED order in which the default marker already leads a group (a previous discretization), and a NEW rare value
+        from AutoCarver.discretizers import GroupedList, Discretizer, QualitativeDiscretizer
+        marker = rng.choice(['__OTHER__', 'AUTRES']); cats = ['a', 'b', 'c', 'd']; old_rare = ['x', 'w'][:rng.choice([1, 2])]
+        col = [rng.choice(cats) for _ in range(n - 6)] + [old_rare[0]] * 3 + ['r'] * 3; rng.shuffle(col)
+        X = pd.DataFrame({'c': pd.Series(col, dtype=object), 'q': [round(rng.random() * 5, 1) for _ in range(n)]}); y = pd.Series([int(rng.random() < 0.4) for _ in range(n)])
+        content = {**{k_: [k_] for k_ in cats + ['r']}, marker: old_rare + [marker]}
+        wit = dict(which=which, values_orders=content, column=col, str_default=marker)
+        for name, mk in (('QualitativeDiscretizer', lambda: QualitativeDiscretizer(qualitative_features=['c'], values_orders={'c': GroupedList(content)}, min_freq=0.1, str_default=marker, copy=True)),
+                         ('Discretizer', lambda: Discretizer(quantitative_features=['q'], qualitative_features=['c'], values_orders={'c': GroupedList(content)}, min_freq=0.1, str_default=marker, copy=True))):
+            w = dict(wit, kind=name)
+            try: o = mk(); o.fit(X, y)
+            except AssertionError: continue
+            except Exception as e:
+                rec('fit#raises.only_AssertionError', False, '%s.fit raised %s: %s' % (name, type(e).__name__, str(e)[:200]), w); continue
+            rec('fit#raises.only_AssertionError', True, '', w)
+            if 'c' in o.features:
+                order = o.values_orders['c']; errs = wf_order(order)
+                rec('fit#post.values_orders_well_formed', not errs, '%s: %s (order %r)' % (name, '; '.join(errs), dict(order.content)), w)
+                missing = [v for v in dict.fromkeys(col) if v not in order.values()]
+                rec('fit#post.values_orders_cover_training_values', not missing, '%s: training values %r are no longer known to values_orders %r' % (name, missing, dict(order.content)), w)
     else:
         from AutoCarver.discretizers.utils.qualitative_discretizers import ChainedDiscretizer
         leaves = ['v%d%d' % (g, j) for g in range(3) for j in range(4)]; levels = [{'G%d' % g: ['v%d%d' % (g, j) for j in range(4)] + ['G%d' % g] for g in range(3)}]
@@ -70,6 +91,6 @@ def run(ctx):
     battery.run_battery(ctx, {'C08'}, kinds=ALL)
     n = 20 if ctx.tier == 'quick' else 200
     ctx.bound('special inputs', '%d pre-grouped ordinal rankings holding the missing-value marker (3 classes) and %d ChainedDiscretizer frames with dropped features' % (n, n))
-    for recs in zoo.pmap(special, [(w, ctx.seed * 53 + i) for i in range(n) for w in ('pregrouped', 'chained')]):
+    for recs in zoo.pmap(special, [(w, ctx.seed * 53 + i) for i in range(n) for w in ('pregrouped', 'pregrouped_default', 'chained')]):
         for clause, ok, wit, msg in recs:
             if clause.startswith('C08:'): ctx.check(clause[4:], clause[4:].split('#')[0], ok, wit, msg)
